@@ -1,5 +1,6 @@
 """C20 - calls are side-effect free and total on their documented domain."""
 import copy
+import os
 import hashlib
 import importlib
 import inspect
@@ -82,10 +83,20 @@ REQUIRED_CLAUSES = ["args-unchanged", "module-tables-unchanged",
                     "illtyped->TypeError|ValueError", "copies-independent",
                     "out-of-range->TypeError|ValueError|value",
                     "reused-argument-objects", "results-own-their-state",
-                    "result-is-not-an-argument-object"]
+                    "result-is-not-an-argument-object", "public-api-present"]
 
 
 # ------------------------------------------------------------------ discovery
+def _unwrapped(f):
+    """The function behind decorators that keep __wrapped__ (functools.wraps,
+    lru_cache): a decorated public function is still a public function."""
+    seen = 0
+    while hasattr(f, "__wrapped__") and seen < 8:
+        f = f.__wrapped__
+        seen += 1
+    return f
+
+
 def discover():
     """[(qualified name, module, class or None, attribute name, kind)]"""
     import pymeeus
@@ -95,7 +106,8 @@ def discover():
         for name, obj in sorted(vars(mod).items()):
             if name.startswith("_") or name in EXCLUDE:
                 continue
-            if inspect.isfunction(obj) and obj.__module__ == mod.__name__:
+            if inspect.isfunction(_unwrapped(obj)) and \
+                    _unwrapped(obj).__module__ == mod.__name__:
                 out.append((m + "." + name, m, None, name, "func"))
             elif inspect.isclass(obj) and obj.__module__ == mod.__name__:
                 for an, a in sorted(vars(obj).items()):
@@ -104,7 +116,7 @@ def discover():
                         continue
                     f = a.__func__ if isinstance(a, (staticmethod,
                                                      classmethod)) else a
-                    if inspect.isfunction(f):
+                    if inspect.isfunction(_unwrapped(f)):
                         kind = "static" if isinstance(a, staticmethod) \
                             else "inst"
                         out.append((m + "." + name + "." + an, m, name, an,
@@ -1112,6 +1124,27 @@ def case_module(mon, module, ncalls, npairs, seedval):
     mon.hit("targets-without-generator", len(uni.without_generator))
 
 
+def case_inventory(mon):
+    """Every public function and method the pinned tree has is still there
+    (possibly decorated) and of the same kind; totality is quantified over
+    all of them, so one that disappears from the workload must be noticed."""
+    have = dict((t[0], t[4]) for t in discover())
+    p = os.path.join(os.path.dirname(os.path.dirname(
+        os.path.abspath(__file__))), "api_inventory.txt")
+    n = 0
+    with open(p) as f:
+        for line in f:
+            if line.startswith("#") or not line.strip():
+                continue
+            name, kind = line.split()
+            n += 1
+            mon.evals += 1
+            mon.check("public-api-present", have.get(name) == kind,
+                      {"function": name, "kind_at_pinned_commit": kind,
+                       "now": have.get(name, "absent")})
+    mon.cls("api-inventory", ("inventory", n), n)
+
+
 def case_copies(mon, seedval):
     """Copies made by copy constructors do not share state with the
     source."""
@@ -1405,7 +1438,7 @@ def key_oor(name, ex):
     return None
 
 
-CASES = {"module": case_module, "copies": case_copies,
+CASES = {"inventory": case_inventory, "module": case_module, "copies": case_copies,
          "out_of_range": case_out_of_range}
 
 
@@ -1421,6 +1454,8 @@ def run(mon, spec):
     if spec["module"] == "__copies__":
         mon.begin("copies", [sv])
         case_copies(mon, sv)
+        mon.begin("inventory", [])
+        case_inventory(mon)
         mon.begin("out_of_range", [])
         case_out_of_range(mon)
         return
